@@ -27,6 +27,8 @@ def genEnv : Env where
   isSpace := tableSpace
   lower := tableLower
   useMatchOffset := true
+  missIndex := -1
+  parseInit := true
 
 def fastTables : Tables where
   digit c := if c < 128 then asciiTables.digit c else RTV.Gen.reTables.digit c
@@ -49,6 +51,8 @@ def fastEnv : Env where
   isSpace := fastSpace
   lower := RTV.Preprocess.lowerWith fastLowerC
   useMatchOffset := true
+  missIndex := -1
+  parseInit := true
 
 end RTV.Choice
 
@@ -56,4 +60,7 @@ namespace RTV.Choice
 /-- the code before the `first-occurrence-span` fix -/
 def genEnvPreFix : Env := { genEnv with useMatchOffset := false }
 def fastEnvPreFix : Env := { fastEnv with useMatchOffset := false }
+/-- the code before /repo 4afb7c9b1 (`index_of` answers 1 on a miss) and 74161fefc (`parse_results` unbound) -/
+def genEnvPreFix2 : Env := { genEnv with missIndex := 1, parseInit := false }
+def fastEnvPreFix2 : Env := { fastEnv with missIndex := 1, parseInit := false }
 end RTV.Choice
